@@ -98,7 +98,9 @@ def schedule_cases(rng, tier):
             gid = gids[gi]
             tots[gid] = t
             # leading zeros are legal decimal renderings of the same numbers
-            fmt = rng.choice([b'g:%d-%d-%d', b'g:%d-%d-%d', b'g:%02d-%02d-%05d', b's:st,g:%d-%d-%d,n:7'])
+            fmt = rng.choice([b'g:%d-%d-%d', b'g:%d-%d-%d', b'g:%02d-%02d-%05d', b's:st,g:%d-%d-%d,n:7',
+                              # unknown / malformed neighbours of the group field are ignored one by one
+                              b's:ST1,,g:%d-%d-%d', b'nocolon,g:%d-%d-%d,x:y', b'\xff\xfe,g:%d-%d-%d', b':,g:%d-%d-%d,'])
             sents = [make_sentence(rng, fmt % (i + 1, t, gid), bodies) for i in range(t)]
             rest = sents[1:]
             rng.shuffle(rest)
@@ -151,6 +153,9 @@ class Prop:
         # the tag block queue stores the sentence objects; raw of a sentence = the line without its tag block
         exp = [(i, [l[l.index(b'\\', 1) + 1:] if l.startswith(b'\\') else l for l in lst])
                for i, lst in expected(case, tots)]
+        if fe.startswith('file'):
+            # no positions through a file: the sequence of lists
+            got, exp = [(0, l) for _, l in got], [(0, l) for _, l in exp]
         if got != exp:
             ctx.fail('tag block queue deliveries differ from "complete, once, unmixed, at the last sentence"',
                      {'frontend': fe, 'lines': [l.hex() for l, _ in case], 'gids': [g for _, g in case],
@@ -161,9 +166,13 @@ class Prop:
     def run(self, ctx):
         rng = ctx.rng('c17')
         cases = schedule_cases(rng, ctx.tier)
-        for fe in ('tbq', 'stream iter 1', 'stream queue 1'):
+        for fe in ('tbq', 'stream iter 1', 'stream queue 1', 'stream bytestream 1', 'file 1'):
             sub = cases if fe == 'tbq' else cases[::5]
-            ops = ['%s %s' % (fe, ' '.join(l.hex() for l, _ in case)) for _, case, _ in sub]
+            if fe == 'file 1':
+                # the readers of file objects / file names: one LF-terminated line per sentence
+                ops = ['file 1 %s' % b''.join(l + b'\n' for l, _ in case).hex() for _, case, _ in sub]
+            else:
+                ops = ['%s %s' % (fe, ' '.join(l.hex() for l, _ in case)) for _, case, _ in sub]
             outs = ctx.corr(ops, impl.step, fe.split()[0] + ('-' + fe.split()[1] if ' ' in fe else ''),
                             nontrivial=lambda l, o: '|' in o)
             for (label, case, tots), o in zip(sub, outs):
@@ -174,7 +183,10 @@ class Prop:
         inp = payload['failure']['input']
         case = [(bytes.fromhex(l), g) for l, g in zip(inp['lines'], inp['gids'])]
         tots = {int(k): v for k, v in inp['tots'].items()}
-        o = impl.step('%s %s' % (inp['frontend'], ' '.join(inp['lines'])))
+        if inp['frontend'].startswith('file'):
+            o = impl.step('file 1 %s' % b''.join(bytes.fromhex(l) + b'\n' for l in inp['lines']).hex())
+        else:
+            o = impl.step('%s %s' % (inp['frontend'], ' '.join(inp['lines'])))
         self.check_case(ctx, inp['frontend'], case, tots, o)
         return not ctx.failures
 
